@@ -426,3 +426,61 @@ Proof.
   - unfold wfT. cbn [tn tmain tsub tsup length]. repeat split; auto.
     unfold tsolve. cbn. destruct (Req_EM_T 2 0); [lra|reflexivity].
 Qed.
+
+(* ---- backward stability for diagonally dominant systems, standard model of floating-point arithmetic ----
+   [dominant_u u t] : for every row  main_i /= 0  and  (|sub_{i-1}| + |sup_i|)(1+u) <= |main_i|(1-u)
+   (row dominance with the margin that rounding needs).  Then every computed multiplier has |gamma_i| <= 1 and the
+   computed x solves (T + dT) x = r exactly with  |dT| <= u * (3|a_i|, 5|b_i| + 9|a_i|, 5|c_i|)  entrywise:
+   Thomas solve is componentwise backward stable on diagonally dominant systems -- in the standard model
+   (relative error u per operation, no underflow/overflow), which is what the property's f64 clause abstracts to. *)
+Theorem thomas_dominant_backward_stable : forall (u : R), (0 <= u <= 1 / 64)%R ->
+  forall (fadd fsub fmul fdiv : R -> R -> R),
+  (forall x y, exists d, (Rabs d <= u)%R /\ fsub x y = ((x - y) * (1 + d))%R) ->
+  (forall x y, exists d, (Rabs d <= u)%R /\ fmul x y = (x * y * (1 + d))%R) ->
+  (forall x y, y <> 0%R -> exists d, (Rabs d <= u)%R /\ fdiv x y = (x / y * (1 + d))%R) ->
+  forall (t : tridiag (ARnd fadd fsub fmul fdiv)) (r x : list R),
+  wfT t -> (1 <= tn t)%nat -> length r = tn t -> dominant_u u fadd fsub fmul fdiv t -> tsolve t r = Ok x ->
+  length x = tn t /\
+  forall i, (i < tn t)%nat -> exists da db dc,
+    (Rabs da <= 3 * u * Rabs (nth i (0 :: tsub t) 0) /\
+     Rabs db <= 5 * u * Rabs (nth i (tmain t) 0) + 9 * u * Rabs (nth i (0 :: tsub t) 0) /\
+     Rabs dc <= 5 * u * Rabs (nth i (tsup t) 0) /\
+     (nth i (0 :: tsub t) 0 + da) * nth i (0 :: x) 0 + (nth i (tmain t) 0 + db) * nth i x 0
+     + (nth i (tsup t) 0 + dc) * nth (i + 1) x 0 = nth i r 0)%R.
+Proof. intros u Hu fadd fsub fmul fdiv Hs Hm Hd t r x. exact (thomas_dominant_backward_stable_lemma u Hu fadd fsub fmul fdiv Hs Hm Hd t r x). Qed.
+Check thomas_dominant_backward_stable : forall (u : R), (0 <= u <= 1 / 64)%R ->
+  forall (fadd fsub fmul fdiv : R -> R -> R),
+  (forall x y, exists d, (Rabs d <= u)%R /\ fsub x y = ((x - y) * (1 + d))%R) ->
+  (forall x y, exists d, (Rabs d <= u)%R /\ fmul x y = (x * y * (1 + d))%R) ->
+  (forall x y, y <> 0%R -> exists d, (Rabs d <= u)%R /\ fdiv x y = (x / y * (1 + d))%R) ->
+  forall (t : tridiag (ARnd fadd fsub fmul fdiv)) (r x : list R),
+  wfT t -> (1 <= tn t)%nat -> length r = tn t -> dominant_u u fadd fsub fmul fdiv t -> tsolve t r = Ok x ->
+  length x = tn t /\
+  forall i, (i < tn t)%nat -> exists da db dc,
+    (Rabs da <= 3 * u * Rabs (nth i (0 :: tsub t) 0) /\
+     Rabs db <= 5 * u * Rabs (nth i (tmain t) 0) + 9 * u * Rabs (nth i (0 :: tsub t) 0) /\
+     Rabs dc <= 5 * u * Rabs (nth i (tsup t) 0) /\
+     (nth i (0 :: tsub t) 0 + da) * nth i (0 :: x) 0 + (nth i (tmain t) 0 + db) * nth i x 0
+     + (nth i (tsup t) 0 + dc) * nth (i + 1) x 0 = nth i r 0)%R.
+Print Assumptions thomas_dominant_backward_stable.
+Print Assumptions tridiag_views.   (* separator, as above *)
+(* with the error-committing operations of the previous example, the 2x2 system [[4,1],[1,4]] x = [1,2] is dominant with
+   the margin and is solved *)
+Example thomas_dominant_backward_stable_nonvacuous :
+  let u := (1 / 64)%R in
+  let fsub := fun x y => ((x - y) * (1 + 1 / 64))%R in
+  let fmul := fun x y => (x * y * (1 + - (1 / 128)))%R in
+  let fdiv := fun x y => (x / y)%R in
+  let t := @mkT (ARnd Rplus fsub fmul fdiv) [1%R] [4%R; 4%R] [1%R] 2 in
+  wfT t /\ (1 <= tn t)%nat /\ length [1%R; 2%R] = tn t /\ dominant_u u Rplus fsub fmul fdiv t /\
+  exists x, tsolve t [1%R; 2%R] = Ok x.
+Proof.
+  cbv zeta. split; [unfold wfT; cbn; auto|]. split; [cbn; auto|]. split; [reflexivity|]. split.
+  - intros i Hi. cbn [tn] in Hi.
+    destruct i as [|[|i]]; [| |exfalso; apply (Nat.lt_irrefl 2); apply (Nat.le_lt_trans _ (S (S i))); [apply le_n_S, le_n_S, Nat.le_0_l|exact Hi]];
+      cbn [nth tmain tsub tsup]; (split; [lra|]); unfold Rabs; repeat destruct Rcase_abs; lra.
+  - unfold tsolve. cbn. destruct (Req_EM_T 4 0) as [E|_]; [lra|].
+    match goal with |- context [Req_EM_T ?b 0] => destruct (Req_EM_T b 0) as [E|_] end.
+    + exfalso. lra.
+    + eexists. reflexivity.
+Qed.
